@@ -645,7 +645,12 @@ theorem stop_announced_once (cfg : HCfg) (eval : σ → SFrame → σ × EvalRes
         | mk env' r =>
           rw [he] at h1
           cases r with
-          | ok appends ret => cases h1
+          | ok appends ret =>
+            by_cases hs : (appends.map (emit cfg a) ++ retFrames cfg a ret).all storable = true
+            · simp only [hs, if_true] at h1; cases h1
+            · have hs' : (appends.map (emit cfg a) ++ retFrames cfg a ret).all storable = false := by simpa using hs
+              refine ⟨some "unstorable output", rfl, by simp [run], ?_⟩
+              simp [run, step, hd, he, hs', stopped_inert]
           | error msg =>
             refine ⟨some msg, rfl, by simp [run], ?_⟩
             simp [run, step, hd, he, stopped_inert]
